@@ -1,10 +1,7 @@
 (* props/C13.v - C13: the pair potential is the shifted, truncated 12-6 Lennard-Jones law (reals). *)
 From Coq Require Import ZArith List Bool Reals. Import ListNotations.
 From PV Require Import Num NumR model.Geom proofs.LatticeFacts proofs.SiteFacts proofs.OverlapFacts proofs.PackingFacts proofs.LJFacts.
-From PV Require Import gen.GenFns proofs.SourceFacts.
-From PV Require Import proofs.SourceCorollaries.
-From PV Require Import model.Iter proofs.SearchFacts.
-From PV Require Import gen.GenFns proofs.SourceFacts proofs.SearchFacts.
+From PV Require Import gen.GenFns model.Iter model.Pipeline proofs.ListLemmas proofs.CorLJ proofs.SrcShapes proofs.SrcState.
 
 Theorem C13_lj_is_12_6 :
   forall (a b : ljR) (r : R), lcut NumR a = None -> (0 < r)%R -> (r * r)%R = r2_of a b -> energy
@@ -82,10 +79,6 @@ Theorem C13_lj_energy_is_source :
 Proof. exact lj_energy_is_source. Qed.
 Print Assumptions C13_lj_energy_is_source.
 
-Theorem C13_source_translated :
-  gen_fns_problem = String.EmptyString.
-Proof. exact source_translated. Qed.
-Print Assumptions C13_source_translated.
 
 
 Theorem C13_source_lj_is_12_6 :
@@ -127,4 +120,30 @@ Theorem S_lj_trimer_is_source :
     7 / nofZ 2)%num radius angle distance.
 Proof. exact lj_trimer_is_source. Qed.
 Print Assumptions S_lj_trimer_is_source.
+
+
+Theorem C13_shapes_source_translated :
+  translated_gen_mol_trimer = true /\ translated_gen_lj_trimer = true /\
+    translated_gen_lj_energy = true /\ translated_gen_ljshape_energy = true /\
+    translated_gen_disc_intersects = true /\ translated_gen_seg_intersects = true /\
+    translated_gen_poly_intersects = true /\ translated_gen_mol_intersects = true /\
+    translated_gen_radial_dtheta = true /\ translated_gen_radial_edge = true /\
+    translated_gen_angle_term = true /\ translated_gen_poly_term = true /\
+    translated_gen_poly_radius_term = true /\ translated_gen_mol_radius_term = true /\
+    translated_gen_poly_radius = true /\ translated_gen_mol_radius = true /\
+    translated_gen_poly_area = true /\ translated_gen_overlap_area = true /\
+    translated_gen_circle_overlap = true /\ translated_gen_mol_area = true.
+Proof. exact shapes_source_translated. Qed.
+Print Assumptions C13_shapes_source_translated.
+
+Theorem C13_state_source_translated :
+  translated_gen_positions = true /\ translated_gen_total_shapes = true /\
+    translated_gen_relative_positions = true /\ translated_gen_cartesian_positions = true /\
+    translated_gen_lj_total_shapes = true /\ translated_gen_lj_relative_positions = true /\
+    translated_gen_lj_cartesian_positions = true /\ translated_gen_density_precheck = true /\
+    translated_gen_shells = true /\ translated_gen_radius_sq = true /\
+    translated_gen_check_intersection = true /\ translated_gen_packed_score = true /\
+    translated_gen_lj_score = true /\ translated_gen_lj_final = true.
+Proof. exact state_source_translated. Qed.
+Print Assumptions C13_state_source_translated.
 
